@@ -75,6 +75,7 @@ ValidRules(rs) == NoDupTargets(rs) /\ Acyclic(rs)
 Base(r, i, sc) ==
   CASE r.kind = "copy"  -> sc[1]
     [] r.kind = "const" -> "K(" \o r.id \o ")"
+    [] r.kind = "empty" -> ""                       \* a stamp file: its content is the empty string, whose hash is also what an empty FileState holds (NoState.h)
     [] r.kind = "sel"   -> "F(" \o r.id \o "," \o ToString(i) \o ")[" \o sc[((i - 1) % Len(sc)) + 1] \o "]"
     [] OTHER            -> "F(" \o r.id \o "," \o ToString(i) \o ")[" \o JoinS(sc, "|") \o "]"
 Out(r, i, sc, e) == Base(r, i, sc) \o (IF InSeq(i, r.mask) THEN "@" \o e ELSE "")
